@@ -7,6 +7,7 @@ import (
 	"fmt"
 	"math"
 	"sort"
+	"strings"
 	"time"
 
 	"pgregory.net/rapid"
@@ -390,6 +391,56 @@ func (e *engine) deliver(w *Wire, to int) {
 	e.afterMerge(to, what, bR, bP, true)
 }
 
+// burst hands the wires (all for one key) to node `to` back to back; what the node holds afterwards is the
+// join of what it held and all of them, in whatever order it worked them off.
+func (e *engine) burst(ws []*Wire, to int) {
+	bR, bP := e.c.State(to)
+	bTomb := tombstonesOf(bR, bP)
+	wantR, wantP := bR, bP
+	var ids []string
+	for _, w := range ws {
+		if w.Key == RingKey {
+			wantR = model.JoinDesc(wantR, w.Ring)
+		} else {
+			wantP = model.JoinPDesc(wantP, w.PRing)
+		}
+		if w.ID < e.maxDelivered[to] {
+			e.res.DroppedOrReordered++
+		} else {
+			e.maxDelivered[to] = w.ID
+		}
+		if e.delivered[w.ID] == nil {
+			e.delivered[w.ID] = map[int]bool{}
+		}
+		e.delivered[w.ID][to] = true
+		ids = append(ids, fmt.Sprintf("#%d (from node %d: %s)", w.ID, w.From, wireCanon(w)))
+	}
+	what := fmt.Sprintf("burst of messages for key %s to node %d while its worker is busy with the first: %s", ws[0].Key, to, strings.Join(ids, ", "))
+	e.log("%s", what)
+	e.c.Burst(ws, to)
+	e.res.Stats["bursts_of_messages_delivered_while_the_worker_is_busy"]++
+	aR, aP := e.c.State(to)
+	aLive := liveOf(aR, aP)
+	for ent, tts := range bTomb {
+		if e.o.ShortRetention && time.Since(time.Unix(tts, 0)) >= retentionShort {
+			// beyond its retention the tombstone may be discarded after the first of the messages, and no
+			// longer stands in the way of the next
+			continue
+		}
+		if ts, ok := aLive[ent]; ok && ts <= tts {
+			e.failf("%s: %s was removed on this node (tombstone at %d) and reappeared (live at %d)", what, ent, tts, ts)
+			return
+		}
+	}
+	if e.strict {
+		if model.CanonDescN(aR) != model.CanonDescN(wantR) || model.CanonPDescN(aP) != model.CanonPDescN(wantP) {
+			e.failf("%s: node holds ring[%s] pring[%s], expected the last-writer-wins join of what it held and every message: ring[%s] pring[%s]", what, model.CanonDescN(aR), model.CanonPDescN(aP), model.CanonDescN(wantR), model.CanonPDescN(wantP))
+			return
+		}
+	}
+	e.afterMerge(to, what, bR, bP, true)
+}
+
 func wireCanon(w *Wire) string {
 	if w.Ring != nil {
 		return model.CanonDescN(w.Ring)
@@ -525,7 +576,7 @@ func RunHistory(rt *rapid.T, b *vx.B, o Opts) *Result {
 	states := []ring.InstanceState{ring.ACTIVE, ring.PENDING, ring.JOINING, ring.LEAVING}
 	pstates := []ring.PartitionState{ring.PartitionPending, ring.PartitionActive, ring.PartitionInactive}
 
-	kinds := []string{"deliver", "deliver", "deliver", "deliver", "gossip", "gossip", "gossip", "unregister", "unregister", "pushpull", "register", "register", "heartbeat", "heartbeat",
+	kinds := []string{"burst", "burst", "deliver", "deliver", "deliver", "deliver", "gossip", "gossip", "gossip", "unregister", "unregister", "pushpull", "register", "register", "heartbeat", "heartbeat",
 		"removeOwner", "removePartition", "addPartition", "partitionState", "addOwner", "partitionLock", "advance", "read", "watch", "replace", "cleanup", "lockRace"}
 	if o.Faults {
 		kinds = append(kinds, "drop", "drop", "restart", "partition", "corrupt", "gossipLimited", "heal")
@@ -722,6 +773,34 @@ func RunHistory(rt *rapid.T, b *vx.B, o Opts) *Result {
 				continue
 			}
 			e.deliver(w, targets[rapid.IntRange(0, len(targets)-1).Draw(rt, "target")])
+		case "burst":
+			// several messages for one key reach a node back to back while its worker is still busy with the
+			// first: every one of them is merged, whatever the others say about the same entries
+			to := node
+			var cands []*Wire
+			for _, w := range c.Pool {
+				if w.From != to && !c.Blocked(w.From, to) && ((w.Key == RingKey && w.Ring != nil) || (w.Key == PRingKey && w.PRing != nil)) {
+					cands = append(cands, w)
+				}
+			}
+			if len(cands) < 2 || e.tainted {
+				continue
+			}
+			first := cands[rapid.IntRange(0, len(cands)-1).Draw(rt, "burstFirst")]
+			ws := []*Wire{first}
+			var same []*Wire
+			for _, w := range cands {
+				if w.Key == first.Key && w != first {
+					same = append(same, w)
+				}
+			}
+			if len(same) == 0 {
+				continue
+			}
+			for k := rapid.IntRange(1, 3).Draw(rt, "burstMore"); k > 0; k-- {
+				ws = append(ws, same[rapid.IntRange(0, len(same)-1).Draw(rt, "burstMsg")])
+			}
+			e.burst(ws, to)
 		case "hazard":
 			// constructed: a message carrying an entry alive, delivered to a node that holds the tombstone
 			type hz struct {
